@@ -25,7 +25,7 @@
    sequences (C17's SMInv) lifted through can_connect_colorize. *)
 From Coq Require Import List String NArith Bool.
 From HV Require Import Partition.Base GraphAlg.Model Partition.Model Partition.WF Partition.PWF
-                       Partition.Full Partition.PFull Partition.PFullW Gen.OpsTable.
+                       Partition.Full Partition.PFull Partition.PFullW Partition.PFullI Gen.OpsTable.
 Import ListNotations.
 Open Scope N_scope.
 Open Scope string_scope.
@@ -48,15 +48,21 @@ Print Assumptions C18_WellFormed_b_sound_partial.
        handoff_edges                                    (PFull.pass_inv, ploop_inv, model_core)
      - subgraphs() returns the classes of the final partition, tiling the global order
                                                         (PFull.sm_subgraphs_spec)
-     - clause W1 (membership) and clause W2 (one loop context)      (theorems below)
+     - handoff insertion keeps the tick map equal to "delay type of the edge's input port" on the
+       growing graph and leaves every delayed input behind a handoff   (PFullI.insert_all_inv)
+     - clause W1 (membership), clause W2 (one loop context) and clause W5 (every delayed input
+       comes out of a handoff; every handoff carries exactly the delay type of its consumer's port,
+       remapped in nested loops; no other marks)                      (theorems below)
    NOT PROVED (the level therefore stays translation_validation; each item names the missing lemma):
      - W3 pipeline shape and the "none inside a subgraph" half of W4: need the colour invariant
        "the merged edges of a group form a tree whose edges respect Pull<=Comp<=Push with Pull
        out-degree <= 1 and Push in-degree <= 1, hence no second internal edge" (can_connect_colorize
        is modelled, Full.can_connect, but no invariant about ps_colors is carried by PInv yet)
-     - W4 first half / W5: need the edge-level specification of insert_all (every id left in
-       handoff_edges is replaced by src -> fresh Vec handoff -> dst with the tick entry moved to the
-       out edge); with PInv.pi_merged / pi_tick and SMInv.inv_no_enemy_inside the clauses follow
+     - W4 first half (no direct operator->operator edge across subgraphs, no handoff->handoff edge):
+       needs one more conjunct in PFullI.IInv classifying every edge of the growing graph as
+       "original and (handoff-adjacent or not in handoff_edges)" or "half of a split edge"; with
+       PInv.pi_merged and the class/subgraph correspondence of W1 the clause follows (plus the
+       front-end fact "no adjacent handoffs" in flat_ok_b)
      - W6 / W7: need (a) that sm_subgraphs lists the classes in an order compatible with
        C17_sm_group_order (quotient edges go forward), and (b) a specification of contig /
        make_loops_contiguous (output is a permutation of the flat order, every loop's descendants
@@ -71,6 +77,11 @@ Theorem C18_W2_all_graphs_partial : forall (T : optable) (g p : graph),
   flat_ok_b T g = true -> partition_model T g = POk p -> W2 p.
 Proof. exact W2_all. Qed.
 Print Assumptions C18_W2_all_graphs_partial.
+
+Theorem C18_W5_all_graphs_partial : forall (T : optable) (g p : graph),
+  flat_ok_b T g = true -> flat_marks_ok_b g = true -> partition_model T g = POk p -> W5 T p.
+Proof. exact W5_all. Qed.
+Print Assumptions C18_W5_all_graphs_partial.
 
 (* the progress loop of the model is total and keeps its invariant *)
 Theorem C18_progress_loop_total_partial : forall (T : optable) (g p : graph),
@@ -100,7 +111,7 @@ Definition g_flat_example : graph :=
            mkEdge 4 4 5 PElided PElided; mkEdge 5 6 3 PElided PElided; mkEdge 6 4 6 PElided PElided;
            mkEdge 7 2 7 PElided PElided] [] [] [].
 Example C18_all_graphs_hyps_satisfiable :
-  flat_ok_b ops_table g_flat_example = true /\
+  flat_ok_b ops_table g_flat_example = true /\ flat_marks_ok_b g_flat_example = true /\
   match partition_model ops_table g_flat_example with
   | POk p => g_topo p = [1; 2; 3] /\ WellFormed_b ops_table p = true
   | _ => False
